@@ -35,6 +35,7 @@ class C2(Ctx):
     def cases(self):
         for k in ks: yield k
 mod = importlib.import_module("props." + prop.lower())
-ctx = C2(prop, seed, os.environ.get("VERIF_TIER", "quick"), worker, 16, 1, "plain", "/dev/null")
+ctx = C2(prop, seed, os.environ.get("VERIF_TIER", "quick"), worker, 16, 1, os.environ.get("VERIF_VARIANT", "plain"), "/dev/null",
+         params=json.loads(os.environ.get("VERIF_PARAMS", "{}")))
 ctx.log = lambda rec: print(json.dumps(rec)[:3000]) if ("end" in rec) else None
 mod.run(ctx)
